@@ -3,6 +3,8 @@
 mod lib_util;
 mod windows;
 mod c01;
+mod c10;
+mod queries;
 
 use std::path::PathBuf;
 
@@ -10,6 +12,11 @@ use lib_util::*;
 
 fn main() {
   let args: Vec<String> = std::env::args().collect();
+  if args.len() >= 3 && args[1] == "ask" {
+    silence_panics();
+    c10::ask(&args[2..]);
+    return;
+  }
   if args.len() < 3 || args[1] != "trace" {
     eprintln!("usage: tvh trace <prop> --tier quick|thorough --seed N --out DIR [--cases FILE] [--threads N]");
     std::process::exit(2);
@@ -49,6 +56,7 @@ fn main() {
   silence_panics();
   let n = match prop.as_str() {
     "C01" => c01::run(&ctx),
+    "C10" => c10::run(&ctx),
     _ => {
       eprintln!("unknown property {}", prop);
       std::process::exit(2);
